@@ -1387,6 +1387,36 @@ fn gen_case(rng: &mut Rng, n: usize, tier: &str, scratch: &std::path::Path, out:
                     ops.push(key_op(Enter, none));
                 }
                 _ if !selecting && rng.chance(1, 5) => {
+                    // a phrase list whose range is moved with j / k and that is left by a choice, Backspace or Up;
+                    // afterwards symbols are inserted through the symbol table in the middle of the buffer (every
+                    // saved cursor must have been dropped by then: seeded change C05-D), and one is removed again
+                    for _ in 0..(2 + rng.below(3)) {
+                        let i = rng.below(world.syls.len() as u64) as usize;
+                        for k in &world.keys[i] {
+                            ops.push(key_op(*k, none));
+                        }
+                    }
+                    for _ in 0..rng.below(3) {
+                        ops.push(key_op(Left, none));
+                    }
+                    ops.push(key_op(Down, none));
+                    for _ in 0..(1 + rng.below(3)) {
+                        ops.push(key_op(*rng.pick(&[J, K]), none));
+                    }
+                    ops.push(match rng.below(3) { 0 => digit(rng), 1 => key_op(Backspace, none), _ => key_op(Up, none) });
+                    for _ in 0..rng.below(2) {
+                        ops.push(key_op(*rng.pick(&[Left, Right, End]), none));
+                    }
+                    for _ in 0..(1 + rng.below(2)) {
+                        ops.push(key_op(Grave, none));
+                        ops.push(digit(rng));
+                        ops.push(digit(rng));
+                    }
+                    if rng.chance(1, 2) {
+                        ops.push(key_op(Backspace, none));
+                    }
+                }
+                _ if !selecting && rng.chance(1, 5) => {
                     // a break (or glue) set with Tab inside the buffer, then a choice for the range that starts
                     // exactly there, then more typing: the break must survive the choice (seeded change C04-B)
                     for _ in 0..(2 + rng.below(3)) {
